@@ -18,6 +18,9 @@ static void *g_last_added;               /* slot returned by the last successful
 static _Bool g_store_failed;             /* addElement/addMember returned null */
 static unsigned g_unparsed_adds;         /* slots added but not (yet) handed to parseVariant */
 static _Bool g_allow[4];
+static unsigned g_deref_calls;
+static char *g_deref_arg;
+static _Bool g_addmember_failed;
 static unsigned g_index0_calls, g_indexkey_calls;
 static char *g_indexkey_arg;
 static char g_keybuf[4];
@@ -179,11 +182,13 @@ struct VariantData *ObjectData__addMember_StringNode_p(struct ObjectData *self, 
   g_addmember_calls++;
   CHECK(key == &g_saved_node, "C01: the member is added under the key saved from the builder");
   CHECK(g_unparsed_adds == 0, "C01: members are added in input order, each parsed before the next");
-  if (in_bool()) { g_store_failed = 1; g_last_added = 0; return 0; }
+  if (in_bool()) { g_store_failed = 1; g_addmember_failed = 1; g_last_added = 0; return 0; }
   g_add_n++; g_unparsed_adds++;
   g_last_added = &g_slots[in_u8() % 3];
   return g_last_added;
 }
+/* dereferenceString [contract proved: strings/pool_dereference]: gives one reference of the pooled string back */
+void ResourceManager__dereferenceString(struct ResourceManager *self, char *s) { (void)self; g_deref_calls++; g_deref_arg = s; }
 void VariantData__clear__ResourceManager_p(struct VariantData *self, struct ResourceManager *r) {
   (void)r;
   CHECK(self == g_last_added, "C01: the existing member (last occurrence wins) is cleared before it is parsed again");
@@ -201,6 +206,7 @@ static JD *mk(char first) {
   g_ended = 0; g_reads = 0; g_have_last = 1; g_last = (unsigned char)first; g_bad_consumed = 0; g_log[0] = 0; g_allowed_class = 0;
   g_child_parse_calls = g_child_skip_calls = g_spaces_calls = g_add_n = g_key_calls = 0;
   g_last_stub_err = 0; g_stub_failed = 0; g_last_added = 0; g_store_failed = 0; g_unparsed_adds = 0;
+  g_deref_calls = 0; g_deref_arg = 0; g_addmember_failed = 0;
   g_index0_calls = g_indexkey_calls = 0; g_indexkey_arg = 0; g_save_calls = g_getmember_calls = g_addmember_calls = g_clear_calls = 0; g_lookup_len = 0;
   g_allow[0] = in_bool(); g_allow[1] = in_bool(); g_allow[2] = in_bool(); g_allow[3] = in_bool();
   g_member_exists = in_bool();
@@ -310,6 +316,10 @@ void h_parseObject(void) {
     CHECK(!g_allow[2] || g_child_skip_calls == 0, "C11: kept members are parsed");
     CHECK(g_indexkey_calls == 0 || g_indexkey_arg == g_keybuf, "C11: the member filter is selected with the parsed key");
     CHECK(g_addmember_calls == g_save_calls, "C01: the key is saved exactly when a new member is added");
+    /* C06/C19: save() took a reference on the key string; if the member cannot be added it must be given back, otherwise
+     * repeated failures make the reference count wrap */
+    CHECK(g_deref_calls == (g_addmember_failed ? 1u : 0u) && (g_deref_calls == 0 || g_deref_arg == g_saved_node.data),
+          "C06/C19: a failed addMember gives back the reference save() took on the key (and nothing else is dereferenced)");
     CHECK(g_member_exists ? (g_addmember_calls == 0 && g_clear_calls == g_getmember_calls) : (g_clear_calls == 0), "C01: an existing member is cleared and re-parsed (last occurrence wins, position kept); a new one is appended");
   }
 #ifdef CANARY_PARSEOBJECT
